@@ -18,12 +18,21 @@ Print Assumptions C40_never_deadlocks_refuted.
 Theorem C40_deadlock_after_disconnect :
   monitor (run cfgA (init cfgA) [Cccd 2; Write [4]; Disc; Cccd 2; Write [4]]) = Some (4%nat, t_busy_idle).
 Proof. exact deadlock_after_disconnect. Qed.
+(* the same defect observed through a Write Command (its 0xFE is invisible): the silently refused
+   procedure never gets a response *)
+Theorem C40_deadlock_after_disconnect_seen_by_write_command :
+  monitor (run cfgA (init cfgA) [Cccd 2; Write [5]; Disc; Cccd 2; WriteCmd [0]; Out 7]) = Some (5%nat, t_response_missing).
+Proof. exact deadlock_after_disconnect_write_command. Qed.
 Theorem C40_deadlock_after_unsubscribe :
   monitor (run cfgA (init cfgA) [Cccd 2; Write [4]; Cccd 0; Out 23; Cccd 2; Write [4]]) = Some (5%nat, t_busy_idle).
 Proof. exact deadlock_after_unsubscribe. Qed.
 Theorem C40_read_resets_procedure :
   monitor (run cfgA (init cfgA) [Cccd 2; Write [4]; Read; Write [4]]) = Some (3%nat, t_accepted_busy).
 Proof. exact read_resets_procedure. Qed.
+(* the same defect observed through a Write Command: the response then names the wrong procedure *)
+Theorem C40_read_resets_procedure_seen_by_write_command :
+  monitor (run cfgA (init cfgA) [Cccd 2; Write [3; 1]; Read; WriteCmd [255]; Out 64]) = Some (4%nat, t_response_opcode).
+Proof. exact read_resets_procedure_write_command. Qed.
 (* fixed with C11's defect (/repo f69efba): an indication dequeued while the client is not
    subscribed no longer stays outstanding, so it does not block the response of a later procedure *)
 Theorem C40_unsent_indication_no_longer_blocks_response :
